@@ -263,3 +263,20 @@ def same_value(a, b):
         out = [same_value(a.fields[k], b.fields[k]) for k in a.fields if k in b.fields]
         return z3.And(*out) if out else z3.BoolVal(True)
     return z3.BoolVal(a is b)
+
+
+def defined_in(prog, f, filename):
+    """is the MIR function `f` (method, free function or closure) defined in fclones/src/<filename>?  (free functions are printed
+    without their module path in the MIR dump, so the source text decides)"""
+    key = "fclones/src/" + filename
+    mod = filename[:-3]
+    if ("<impl at %s:" % key) in f.name or ("{closure@%s:" % key) in f.name or f.name.startswith(mod + "::"):
+        return True
+    if "<impl at " in f.name:
+        return False
+    base = mirsym.strip_generics(f.name).split("::")[0]
+    txt = prog.src.files.get(key, "")
+    if not re.search(r"\bfn\s+%s\b" % re.escape(base), txt):
+        return False
+    others = [k for k, t in prog.src.files.items() if k != key and re.search(r"\bfn\s+%s\b" % re.escape(base), t)]
+    return not others
